@@ -70,6 +70,8 @@ WINDOW = 300
 WINDOW_MS = WINDOW * 1000
 LIMIT = 1296
 NAMES = ["attribute", "name1", "n"]
+# names as production hands them through from the requester's JSON, untyped: True == 1 == 1.0 in Python, three JSON texts
+NAMES_TYPED = [True, 1, 1.0, "1"]
 MDS = [None, None, {}, {"a": "b"}, {"a": "c"}, {"a": "b", "x": "y"}, {"a": 1}, {"a": True}, {"a": 1.0}]
 # registrations only: values that have no JSON form (misuse of add_known_hash; they must simply match nothing)
 MDS_NONJSON = [{"a": b"b"}, {"a": {1, 2}}, {1: "x", "a": "b"}]
@@ -131,6 +133,7 @@ class World:
         for k, n in self.nodes.items():
             n.endpoint.send = self._mk_send(k)
         self.seen_attr, self.seen_tok = set(), set()
+        self.ever_chain = {}
         self._rows_before = {}
         self.retired = []                                   # objects of earlier lifetimes (stopped at the end)
         self.lifetime = {k: 0 for k in self.nodes}
@@ -191,8 +194,7 @@ class World:
         return self._h.setdefault(bytes(b), len(self._h) + 1)
 
     def nid(self, v) -> int:
-        key = ("s", v) if isinstance(v, str) else ("o", json.dumps(v, sort_keys=True))
-        return self._n.setdefault(key, len(self._n) + 1)
+        return self._n.setdefault(jd(v), len(self._n) + 1)
 
     def xid(self, d: dict) -> int:
         return self._x.setdefault(jd(d), len(self._x) + 1)
@@ -454,15 +456,13 @@ class World:
             self.fail("substantiate:chain-not-verified", tag + " but the token it points to has no verified path to the "
                       "subject's genesis among the tokens that subject disclosed")
             return
-        # the triggering message itself must verify completely
-        toks, tabort = self.parse_tokens(trigger.body.tokens)
-        bad = tabort or any(not (t["vk"] >> p) & 1 for t in toks)
-        if trigger.kind == 1:
-            atts, aabort = self.parse_attestations(trigger.body.attestations, trigger.body.authorities)
-            bad = bad or aabort or any(not (a["vk"] >> a["auth"]) & 1 for a in atts)
-        if bad:
+        # every (complete) token the subject disclosed in the triggering message must be the subject's.  Deliberately NOT
+        # judged (the code is stricter, but the property does not ask for it): a trailing partial chunk, and third-party
+        # attestations travelling in the same message
+        toks, _ = self.parse_tokens(trigger.body.tokens)
+        if any(not (t["vk"] >> p) & 1 for t in toks):
             self.fail("_received_disclosure_for_attest:disclosure-not-verified",
-                      tag + " in reaction to a disclosure containing a token or attestation that does not verify")
+                      tag + " in reaction to a disclosure containing a token that does not verify under the subject's key")
         try:
             tr = json.loads(js)
             name = tr["name"]
@@ -486,7 +486,7 @@ class World:
         if not c2:
             self.fail(site + ":subject-key", tag + " but the attribute hash was registered for another subject key only")
             return
-        c3 = [r for r in c2 if r["name"] == name]
+        c3 = [r for r in c2 if jd(r["name"]) == jd(name)]
         if not c3:
             self.fail(site + ":name", tag + f" under name {name!r}, registered only under {[r['name'] for r in c2]}")
             return
@@ -563,6 +563,7 @@ class World:
                                                         self.nid(name), subj, "-" if md is None else self.xid(md)))
         self.expect.append("ok")
         self.ctx.count("ev:reg")
+        self.ctx.count("reg:name=" + ("str" if isinstance(name, str) else "non-str"))
         self.ctx.count("reg:md=" + ("none" if md is None else "fixed-without-json-form" if jd(md).startswith("<no JSON")
                                     else "fixed"))
         self.ctx.count("reg:subject=" + ("node" if subj <= N_NODES else "third-party"))
@@ -592,7 +593,8 @@ class World:
         self.lifetime[v] += 1
         new_chain = [t.get_hash() for t in n.overlay.token_chain]
         # oracle bookkeeping: the user has to open the chain again; the chain is whatever the object reloaded
-        if sorted(new_chain) != sorted(set(new_chain)) or any(h not in old_chain for h in new_chain):
+        self.ever_chain.setdefault(v, set()).update(old_chain)
+        if sorted(new_chain) != sorted(set(new_chain)) or any(h not in self.ever_chain[v] for h in new_chain):
             self.fail("__init__:chain-reload", f"node {v} reloaded a chain with tokens it never had")
         self.ctx.count("restart:chain=%s" % ("same" if new_chain == old_chain else
                                              "reversed" if new_chain == old_chain[::-1] else
@@ -1272,7 +1274,7 @@ class Gen:
         if r < 0.16:
             v = self.node()
             subj = rng.choice([k for k in (w.nodes if rng.random() < 0.9 else w.sk) if k != v])
-            w.ev_reg(v, self.rhash(), rng.choice(NAMES), subj,
+            w.ev_reg(v, self.rhash(), rng.choice(NAMES_TYPED) if rng.random() < 0.08 else rng.choice(NAMES), subj,
                      rng.choice(MDS_NONJSON) if rng.random() < 0.06 else rng.choice(MDS))
         elif r < 0.27:
             s = self.node()
@@ -1282,7 +1284,7 @@ class Gen:
             if regs and rng.random() < 0.7:
                 x = rng.choice(regs)
                 raw = x["h"][len(PAD):] if x["h"].startswith(PAD) else x["h"]
-                w.ev_advert(s, v, raw, x["name"] if rng.random() < 0.8 else rng.choice(NAMES),
+                w.ev_advert(s, v, raw, x["name"] if rng.random() < 0.7 else rng.choice(NAMES + NAMES_TYPED),
                             x["md"] if rng.random() < 0.7 and not jd(x["md"]).startswith("<no JSON") else rng.choice(MDS))
             else:
                 w.ev_advert(s, v, self.rhash(), rng.choice(NAMES), rng.choice(MDS))
@@ -1422,7 +1424,9 @@ async def run_matrix_world(ctx: Ctx, loop, use_model, combo, world_seed):
     try:
         v, a, b = 1, 2, 3
         h = w.rng.randbytes(20 if sha1 else 32)
-        w.ev_reg(v, h, "attribute", b if reg_for_other else a, md_reg)
+        reg_name, adv_name = ("attribute", "attribute") if name_ok is True else ("attribute", "name1") if name_ok is False \
+            else name_ok
+        w.ev_reg(v, h, reg_name, b if reg_for_other else a, md_reg)
         if reg_for_other:
             # the requester holds a different, valid registration (the case the unit tests never combine)
             h2 = w.rng.randbytes(32)
@@ -1431,7 +1435,7 @@ async def run_matrix_world(ctx: Ctx, loop, use_model, combo, world_seed):
             g0 = Gen(w, [h, h2])
             g0.flush()
         w.ev_advance(age)
-        w.ev_advert(a, v, h, "attribute" if name_ok else "name1", md_adv)
+        w.ev_advert(a, v, h, adv_name, md_adv)
         pk = [e for e in w.queue if e.kind == 1 and e.src == a]
         g = Gen(w, [h])
         g.flush()
@@ -1450,14 +1454,14 @@ def run_matrix(ctx: Ctx, use_model: bool):
     logging.disable(logging.CRITICAL)
     loop = vclock.new_loop()
     try:
-        combos = itertools.product([False, True], [True, False], [None, {}, {"a": "b"}, {"a": 1}],
+        combos = itertools.product([False, True], [True, False, (True, 1), (1, 1.0), (1, 1)], [None, {}, {"a": "b"}, {"a": 1}],
                                    [None, {"a": "b"}, {"a": "c"}, {"a": True}],
                                    [0, 300, 300.125, 301], [False, True] if ctx.thorough() or ctx.searching else [False])
         for i, combo in enumerate(combos):
             w = loop.run_until_complete(run_matrix_world(ctx, loop, use_model, combo, 1000 + i))
             if use_model:
                 compare(ctx, w, ctx.driver().batch(w.lines))
-            ctx.case(("matrix", combo), True)
+            ctx.case(("matrix", combo), w.nontrivial)
             ctx.count("matrix:cells")
             if len(ctx.failures) >= 200 or len(ctx.disagreements) >= 200:
                 break
